@@ -115,3 +115,43 @@ m('c05-empty-check-removed', ['C05'], 'R-PANIC', [
         }
 """, "")],
   'panics on "" and "e5": len()-1 underflows')
+# ---- C06
+m('c06-floor-ceiling-swapped', ['C06'], 'round_pair:mode=', [
+  ('src/rounding.rs', "(Floor,     _) => if sign == Sign::Minus { up } else { down },", "(Floor,     _) => if sign == Sign::Minus { down } else { up },")],
+  'Floor rounds like Ceiling')
+m('c06-halfeven-parity', ['C06'], 'round_pair:mode=HalfEven', [
+  ('src/rounding.rs', "(HalfEven, Equal) => if lhs % 2 == 0 { down } else { up },", "(HalfEven, Equal) => if lhs % 2 == 0 { up } else { down },")],
+  'ties go to odd')
+m('c06-tie-ignores-tail', ['C06'], 'round_pair:mode=Half', [
+  ('src/rounding.rs', "            (_,        Equal) if !trailing_zeros => up,\n", "")],
+  '..5000..1 treated as a tie')
+m('c06-exact-ignores-tail', ['C06'], 'round_pair:mode=', [
+  ('src/rounding.rs', "if rhs == 0 && trailing_zeros {\n            return lhs;", "if rhs == 0 {\n            return lhs;")],
+  'x.0000001 under Up treated as exact')
+m('c06-lazy-flag-hint-wrong', ['C06'], 'needs_trailing_zeros:lazy-flag', [
+  ('src/rounding.rs', "if matches!(self, HalfUp | HalfDown | HalfEven) {\n            insig_digit == 5", "if matches!(self, HalfUp | HalfDown | HalfEven | Up) {\n            insig_digit == 5")],
+  'Up no longer asks for the tail when the digit is 0')
+m('c06-halfdown-boundary', ['C06'], 'round_pair:mode=', [
+  ('src/rounding.rs', "match (*self, rhs.cmp(&5)) {", "match (*self, rhs.cmp(&6)) {")],
+  'half-way point moved to 6')
+# ---- C14
+m('c14-5pow149-word-typo', ['C14'], 'R-CONST', [
+  ('src/parsing.rs', "3843013918, 3873995871, 858643596, 3706384338, 65604258", "3843013918, 3873995871, 858643569, 3706384338, 65604258")],
+  'one digit transposed in the 5^149 table (only f32 subnormals are affected)')
+m('c14-subnormal-scale-off-by-one', ['C14'], 'R-CONST', [
+  ('src/parsing.rs', "let scale = 149;", "let scale = 148;")],
+  'scale literal disagrees with the table')
+m('c14-infinite-accepted', ['C14'], 'FpCategory::Infinite', [
+  ('src/parsing.rs', """        Infinite => Err(ParseBigDecimalError::Other("Infinite".into())),
+        Subnormal => Ok(parse_from_f64_subnormal(n)),""", """        Subnormal => Ok(parse_from_f64_subnormal(n)),
+        Infinite => Ok(parse_from_f64(n)),""")],
+  'f64 infinities converted as if finite')
+m('c14-subnormal-routed-to-normal', ['C14'], 'FpCategory::Subnormal', [
+  ('src/parsing.rs', """        Subnormal => Ok(parse_from_f32_subnormal(n)),
+        Normal | Zero => Ok(parse_from_f32(n)),""", """        Normal | Zero | Subnormal => Ok(parse_from_f32(n)),""")],
+  'f32 subnormals take the normal path')
+m('c14-from-f64-bypasses-classifier', ['C14'], 'R-NOCALL', [
+  ('src/impl_num.rs', """    fn from_f64(n: f64) -> Option<Self> {
+        BigDecimal::try_from(n).ok()""", """    fn from_f64(n: f64) -> Option<Self> {
+        Some(crate::parsing::parse_from_f64(n))""")],
+  'FromPrimitive::from_f64 converts NaN')
